@@ -7,7 +7,7 @@ use serde_json::{Value, json};
 use std::sync::mpsc::{Receiver, Sender, channel};
 use std::sync::{Arc, Mutex};
 
-const RULE: &str = "N in {2,3} rewriter instances from a 14-entry menu (plain, selector-heavy, memory-limited, failing, meta-charset, large-buffer, case-variant selectors), each a call sequence new, write*, end; EVERY interleaving of their calls (call-granularity scheduler: real OS threads that run only while they hold the baton) x thread assignments {one thread per instance, all on one thread, Send rewriter migrated to another thread after every call}, plus selector parsing on other threads in between; oracle: every instance's observation (sink log, events, results, accounted memory) equals its solo single-thread run; repetition gives identical observations; C API: a thread only ever sees and clears its own last error, in all interleavings of {error, take} on two threads; non-trivial = distinct (instances, interleaving, assignment) where both instances produced output";
+const RULE: &str = "N in {2,3} rewriter instances from an 18-entry menu (plain, selector-heavy, memory-limited, failing, meta-charset, large-buffer, case-variant selectors, documents ending inside svg/math, svg title + CDATA, per-type counters over many equally long custom element names), each a call sequence new, write*, end; EVERY interleaving of their calls (call-granularity scheduler: real OS threads that run only while they hold the baton) x thread assignments {one thread per instance, all on one thread, Send rewriter migrated to another thread after every call}, plus selector parsing on other threads in between; oracle: every instance's observation (sink log, events, results, accounted memory) equals its solo single-thread run; repetition gives identical observations; C API: a thread only ever sees and clears its own last error, in all interleavings of {error, take} on two threads; non-trivial = distinct (instances, interleaving, assignment) where both instances produced output";
 
 #[derive(Clone)]
 struct Inst {
@@ -46,6 +46,17 @@ fn menu() -> Vec<Inst> {
         Inst { name: "sjis", p: leak(Cfg::with(all.clone()).enc("Shift_JIS")), chunks: vec![vec![b'<', b'a', b'>', 0x83], vec![0x41, b'<', b'/', b'a', b'>']] },
         Inst { name: "rewriting", p: leak(Cfg::with(crate::common::marker_menu().remove(4).1).strict(false)), chunks: ch(&["<a k=v><b>", "x</b></a>"]) },
         Inst { name: "deep-nesting", p: leak(Cfg::with(vec![obs("div div"), obs("div:nth-of-type(2)")]).strict(false)), chunks: vec!["<div>".repeat(40).into_bytes(), "</div>".repeat(25).into_bytes(), "<div>".repeat(30).into_bytes()] },
+        Inst { name: "ends-inside-svg", p: leak(Cfg::with(all.clone()).strict(false)), chunks: ch(&["<p>a</p><svg><title>in ", "title<b>x"]) },
+        Inst { name: "svg-title-cdata", p: leak(Cfg::with(all.clone()).strict(false)), chunks: ch(&["<svg><title>t</title><![CDATA[z]]><a/>", "<desc>d</desc><path/></svg><a/>"]) },
+        Inst { name: "math-ends-inside", p: leak(Cfg::with(vec![obs("*")]).strict(false)), chunks: ch(&["<math><mi>x</mi><annotation-xml encoding=\"text/html\"><p>", "y"]) },
+        Inst {
+            name: "typed-counters-long-names",
+            p: leak(Cfg::with(vec![obs(":nth-of-type(2)"), obs("div > :first-of-type")]).strict(false)),
+            chunks: vec![
+                format!("<div>{}", (0..24).map(|i| format!("<x-item-{i:03}>a</x-item-{i:03}>")).collect::<String>()).into_bytes(),
+                format!("{}</div>", (0..24).map(|i| format!("<x-item-{:03}>b</x-item-{:03}>", 23 - i, 23 - i)).collect::<String>()).into_bytes(),
+            ],
+        },
         Inst { name: "esi", p: leak(Cfg { esi: true, ..Cfg::with(vec![obs("esi\\:include")]) }), chunks: ch(&["<esi:include src=a>", "<b>"]) },
     ]
 }
